@@ -225,10 +225,12 @@ def walks(edges, nwalks=300, depth=10, seed=0):
                     stats["layout_differs"] += 1
                 else:
                     stats["layout_equal"] += 1
-                if list(getattr(obj, v.mapname)) != list(e["map"]):
-                    stats["map_differs"] += 1
+                try:
+                    same_map = list(getattr(obj, v.mapname)) == list(e["map"])
+                except Exception:  # noqa: BLE001 - the map is an internal of the library: absent is not a finding
+                    stats["map_unavailable"] += 1
                 else:
-                    stats["map_equal"] += 1
+                    stats["map_equal" if same_map else "map_differs"] += 1
                 cur = rkey(e["post"])
     return out, dict(stats)
 
